@@ -835,15 +835,16 @@ func checkImmutableTypes(P *Program, prop string) []StructResult {
 					if !ok {
 						continue
 					}
-					fa, ok := st.Addr.(*ssa.FieldAddr)
-					if !ok {
-						continue
-					}
 					// the outermost struct the field chain starts in
 					root := rootOfAddr(st.Addr)
 					// does the chain pass through the immutable type?
 					touches := false
-					for cur := ssa.Value(fa); ; {
+					if pt, ok := st.Addr.Type().Underlying().(*types.Pointer); ok {
+						if nm, ok := pt.Elem().(*types.Named); ok && nm.Obj().Name() == tname {
+							touches = true // the whole object is overwritten
+						}
+					}
+					for cur := st.Addr; ; {
 						f, ok := cur.(*ssa.FieldAddr)
 						if !ok {
 							break
@@ -866,6 +867,41 @@ func checkImmutableTypes(P *Program, prop string) []StructResult {
 						storesVia[r] = true
 					default:
 						bad = append(bad, fmt.Sprintf("%s stores into a %s it did not allocate (%s)", fnKey(fn), tname, posOf(fn, st.Pos())))
+					}
+				}
+			}
+		}
+		// a fresh object is complete when it is published: no store into it after the first point where it leaves the
+		// activation's hands (the point where its abstract view is defined, see publicationPoints)
+		for _, fn := range P.allFuncs {
+			for _, b := range fn.Blocks {
+				for _, in := range b.Instrs {
+					a, ok := in.(*ssa.Alloc)
+					if !ok || a.Referrers() == nil {
+						continue
+					}
+					nm, ok := a.Type().Underlying().(*types.Pointer).Elem().(*types.Named)
+					if !ok || nm.Obj().Name() != tname {
+						continue
+					}
+					var esc []ssa.Instruction
+					for _, r := range *a.Referrers() {
+						if isEscape(r, a) {
+							esc = append(esc, r)
+						}
+					}
+					for _, b2 := range fn.Blocks {
+						for _, in2 := range b2.Instrs {
+							st, ok := in2.(*ssa.Store)
+							if !ok || rootOfAddr(st.Addr) != ssa.Value(a) {
+								continue
+							}
+							for _, e := range esc {
+								if e != ssa.Instruction(st) && instrDominates(e, st) {
+									bad = append(bad, fmt.Sprintf("%s stores into a %s after publishing it (%s)", fnKey(fn), tname, posOf(fn, st.Pos())))
+								}
+							}
+						}
 					}
 				}
 			}
